@@ -338,6 +338,21 @@ def shard_odd(shard):
             judge_robust(st, sch.sid, c, r, (b'z = 7', b'z'))
             st.transitions += 1
         st.nontriv('%s/%d' % (kind, mask))
+        if kind == 'sec' and not mask >> 9 & 1:
+            # the same with the section NAMED like the top-level context ("root"), at the top level and nested in a titled section
+            # whose instances get replaced
+            fl = ''.join(f for k_, f in enumerate(ODD_FLAGS) if mask >> k_ & 1)
+            sch = Schema('ODD', [Opt('sec', 'root', fl, sub=[Opt('int', 'x', '', 1), Opt('str', 'xl', 'L', [b'a'])]),
+                                 Opt('sec', 'w', 'MT', sub=[Opt('sec', 'root', fl.replace('T', ''), sub=[Opt('int', 'x', '', 1)]), Opt('int', 'y', '', 2)]),
+                                 Opt('int', 'z', '', 3)])
+            SCHEMAS[sch.sid] = sch
+            drv.define_schema(sch.sid, sch.spec())
+            texts = [t.replace(b'o', b'root').replace(b'O', b'ROOT') for t in ODD_TEXTS[:30]] + \
+                    [b'w t { root { x = 1 } } w t { } z = 7', b'w t { root { x = 1 } y = 3 } w t { root { } } w u { }', b'root { } z = 7 root { x = 2 }']
+            cases = [robust_case(sch.sid, fl_, t, (b'z = 7', b'z'), quiet=True) for fl_ in (0, CFGF['IGNORE_UNKNOWN']) for t in texts]
+            for c, r in zip(cases, drv.run(cases)):
+                judge_robust(st, sch.sid, c, r, (b'z = 7', b'z'))
+                st.transitions += 1
         if time.time() > deadline:
             st.complete = False
             break
